@@ -473,7 +473,10 @@ def constructed_default_cases(ctx, n):
     out = []
     for _ in range(n):
         elem = r.choice([('int',), ('int',), ('octs',), rec2, ('seqof', ('int',))])
-        ft = r.choice([('seqof', elem), ('seqof', elem), rec2 if elem[0] != 'seqof' else ('seqof', elem)])
+        # no OPTIONAL member inside a DEFAULT record: the encoders' `component == default` test raises on an unassigned
+        # member of either side (DESIGN.md F20), which is not what this check is about
+        mid = ('seq', [('req', rec2), ('req', ('int',)), ('req', ('seqof', rec2))])
+        ft = r.choice([('seqof', elem), ('seqof', elem), rec2 if elem[0] != 'seqof' else ('seqof', elem), mid, mid])
         if ft[0] == 'seqof':
             items = []
             while len(items) < r.randint(2, 4):
@@ -483,6 +486,8 @@ def constructed_default_cases(ctx, n):
             dv = ('list', items)
         else:
             dv = g.val(ft)
+            if ft is mid and not dv[1][2][1]:
+                dv = ('rec', [dv[1][0], dv[1][1], ('list', [g.val(rec2)])])
         fields = [('req', ('int',)), (('def', dv), ('imp', (128, 0, 1), ft)), ('opt', ('imp', (128, 0, 2), ('octs',)))]
         if r.random() < 0.4:
             fields.append((('def', ('i', 5)), ('imp', (128, 0, 3), ('int',))))
@@ -511,6 +516,144 @@ def constructed_default_cases(ctx, n):
         except Exception:  # noqa
             ctx.stats['unbuildable'] += 1
     return out
+
+
+# ---------------------------------------------------------------------------------------------
+# values must not share mutable parts: clones, and DEFAULT components instantiated by a read
+
+def constructed_children(node):
+    cv = node._componentValues
+    if cv is univ.noValue:
+        return []
+    vals = list(cv.values()) if isinstance(cv, dict) else list(cv)
+    return [c for c in vals if c is not univ.noValue and isinstance(c, (univ.SequenceOfAndSetOfBase, univ.SequenceAndSetBase)) and c.isValue]
+
+
+def edit_here(node, rng):
+    """change the abstract content of this constructed node in place, through the public API"""
+    if isinstance(node, univ.SequenceOfAndSetOfBase):
+        if len(node) == 0:
+            return None
+        first = node[0]
+        node.append(first.clone(cloneValueFlag=True) if isinstance(first, (univ.SequenceOfAndSetOfBase, univ.SequenceAndSetBase)) else first)
+        return 'append a copy of member 0'
+    if isinstance(node, univ.Choice):
+        return None
+    cv = node._componentValues
+    if cv is univ.noValue:
+        return None
+    order = list(range(len(cv)))
+    rng.shuffle(order)
+    for k in order:
+        c = cv[k]
+        if c is univ.noValue or not c.isValue:
+            continue
+        if isinstance(c, univ.Integer) and not isinstance(c, univ.Boolean) and type(c) in (univ.Integer,):
+            node[k] = int(c._value) + 1; return 'member %d: integer + 1' % k
+        if isinstance(c, univ.Boolean):
+            node[k] = 0 if int(c._value) else 1; return 'member %d: boolean flipped' % k
+        if type(c) is univ.OctetString:
+            node[k] = bytes(c._value) + b'!'; return 'member %d: octets extended' % k
+        if node.componentType[k].isOptional:
+            node.setComponentByPosition(k); return 'OPTIONAL member %d dropped' % k
+    return None
+
+
+def deep_edit(node, rng, min_depth, depth=0, path='.'):
+    """descend at random (at least min_depth levels) and edit in place; -> description or None"""
+    kids = constructed_children(node)
+    order = list(range(len(kids)))
+    rng.shuffle(order)
+    if depth >= min_depth and (not kids or rng.random() < 0.4):
+        how = edit_here(node, rng)
+        if how:
+            return '%s %s' % (path, how)
+    for j in order:
+        r = deep_edit(kids[j], rng, min_depth, depth + 1, path + '/%s' % type(kids[j]).__name__)
+        if r:
+            return r
+    if depth >= min_depth:
+        how = edit_here(node, rng)
+        if how:
+            return '%s %s' % (path, how)
+    return None
+
+
+def value_snap(obj, T):
+    return (I.run_encode('DER', obj)[:2], I.run_encode('CER', obj)[:2], U.absval_top(obj, T), pos_snap(obj))
+
+
+def snap_diff(a, b):
+    names = ['DER', 'CER', 'abstract content', 'members']
+    return [n for n, x, y in zip(names, a, b) if (not U.aval_eq(x, y) if n == 'abstract content' and x[0] != 'bad' else x != y)]
+
+
+def default_positions(T):
+    b = base_desc(T)
+    if b[0] not in ('seq', 'set'):
+        return []
+    return [i for i, (p, ft) in enumerate(b[1]) if isinstance(p, tuple) and base_desc(ft)[0] in ('seq', 'set', 'seqof', 'setof')]
+
+
+def aliasing_checks(ctx, cases):
+    rng = ctx.rng
+    for c in cases:
+        T, v = c.T, c.v
+        if base_desc(T)[0] not in CONSTRUCTED or c.want[0] == 'bad':
+            continue
+        m = {'T': jsonable(T), 'v': jsonable(v)}
+        # (A) a clone and its original: editing one, deep inside, leaves the other as it was
+        for who in ('clone', 'original'):
+            spec = U.build_type(T)
+            x = U.build_value(T, v, spec=spec)
+            y = x.clone(cloneValueFlag=True)
+            sx, sy = value_snap(x, T), value_snap(y, T)
+            if sx[0] != sy[0] or sx[1] != sy[1]:
+                if not has_memberless_record(T, v):
+                    ctx.prop_fail('a clone encodes differently from its original', dict(m, original=jsonable(sx[:2]), clone=jsonable(sy[:2])))
+                continue
+            edited, kept, kept_snap = (y, x, sx) if who == 'clone' else (x, y, sy)
+            how = deep_edit(edited, rng, min_depth=1)
+            if not how:
+                continue
+            ctx.case(('alias', who, c.cty, c.cval, how), True)
+            ctx.stats['deep edits after clone (%s edited)' % who] += 1
+            d = snap_diff(kept_snap, value_snap(kept, T))
+            if d:
+                ctx.prop_fail('editing the %s deep inside changed the %s of the untouched %s' % (who, '/'.join(d), 'original' if who == 'clone' else 'clone'),
+                              dict(m, edit=how))
+        # (B) a DEFAULT constructed component read (instantiated) and edited in place: the type's DEFAULT stays what it was
+        for i in default_positions(T):
+            b = base_desc(T)
+            spec = U.build_type(T)
+            dflt = spec.componentType[i].asn1Object
+            ft = b[1][i][1]
+            pristine = (pos_snap(dflt), U.absval_top(dflt, ft))
+            t = spec.clone()
+            for k, ((p, f), fv) in enumerate(zip(b[1], v[1])):
+                if k != i and fv is not None:
+                    t.setComponentByPosition(k, U.build_value(f, fv, spec=spec.componentType[k].asn1Object))
+            comp = t[i] if rng.random() < 0.5 else t.getComponentByName('f%d' % i)
+            how = deep_edit(comp, rng, min_depth=rng.choice([0, 1, 1]))
+            if not how:
+                continue
+            ctx.case(('default-edit', c.cty, i, how), True)
+            ctx.stats['in-place edits of an instantiated DEFAULT component'] += 1
+            mm = dict(m, component=i, edit=how)
+            if pos_snap(dflt) != pristine[0]:
+                ctx.prop_fail("editing a value's instantiated DEFAULT component changed the DEFAULT value held by the type", mm)
+            fresh = spec.clone()
+            got = U.absval_top(fresh[i], ft)
+            if not U.aval_eq(got, pristine[1]):
+                ctx.prop_fail('a fresh object of the type reports an edited value as its DEFAULT', dict(mm, got=jsonable(got), want=jsonable(pristine[1])))
+            # the edited value still encodes what it holds: DER reads back to its abstract content
+            want = U.absval_top(t, T)
+            e = I.run_encode('DER', t)
+            if e[0] == 'ok' and want[0] != 'bad':
+                d = I.run_decode('DER', e[1], asn1Spec=U.build_type(T))
+                if d[0] == 'ok' and not d[2] and not U.aval_eq(U.absval_top(d[1], T), want):
+                    ctx.prop_fail('DER of a value whose DEFAULT component was edited in place does not carry the edit',
+                                  dict(mm, der=e[1].hex()), finding=codec.classify_roundtrip(T, v, 'DER', False))
 
 
 def fixed_orders(ctx):
@@ -581,13 +724,14 @@ def run(ctx):
                 'explicit or left out, SEQUENCE OF/SET OF positions assigned in a random order by s[i]= / setComponentByPosition after an appended prefix, record members built in place through s[i][name]=, parts decoded from indefinite/chunked BER or CER/DER forms, clone(cloneValueFlag=True), interleaved '
                 'encode/print/iterate/len/compare/getComponentBy*(instantiate=False and True) reads); every 5th history may also enter the '
                 'classes of the open findings F18a/F18d/F18j; compared: DER and CER of both, a second encode, re-encoding of the decoded DER/CER; '
-                'non-trivial = constructed type with at least 2 recorded history steps')
+                'plus, per case: clone(cloneValueFlag=True) then an in-place edit at least one level down in the clone (resp. the original) with the other side compared to its snapshot (DER, CER, content, members), and DEFAULT constructed components read, edited in place, then the type\'s DEFAULT, a fresh instance and the DER round trip checked; non-trivial = constructed type with at least 2 recorded history steps')
     dcases = constructed_default_cases(ctx, ctx.n(40, 400))
     ctx.stats['cases with a DEFAULT component of constructed type'] = len(dcases)
     cases = targeted() + dcases + codec.gen_cases(ctx, ctx.n(150, 2500), depth=3)
     exprs, meta = [], []
     fixed_orders(ctx)
     fixed_default_orders(ctx)
+    aliasing_checks(ctx, cases)
     for n, c in enumerate(cases):
         for rep in range(2 if base_desc(c.T)[0] in CONSTRUCTED else 1):
             check_case(ctx, c, wild=(n % 5 == 4 and rep == 1), exprs=exprs, meta=meta)
